@@ -84,6 +84,18 @@ CHECKS = {
             "Exhaustive refinement check of the buffer/leftover/field-switch logic at small sizes; scripted rejections at every buffer position and across refills "
             "on all seven fields with expected elements from TLC; every tag/binder split and boundary-straddling read sequence on all XOF families validated by TLC.",
             "XOF primitives are oracles; buffer size 32 in the implementation vs 3 in the exhaustive model (the scripts cover the real size)."),
+    "C07": ("DESIGN.md#c07--canonical-round-tripping-length-exact-encodings",
+            "TLA+ total decoders for every wire format (Codec.tla grammar interpreter); TLC enumerates honest-shaped and deviating strings with verdicts; replay on "
+            "the real decoders comparing verdict, canonical re-encoding and encoded_len",
+            "Every message type x decoding parameter instance is exercised with model-judged strings covering each non-canonical form named in the property; the "
+            "real decoder must agree with the model's verdict on every string, and every accepted string must re-encode to itself with the advertised length.",
+            "Instances and deviations are enumerated, not all byte strings; field canonicity judged through limb arithmetic (BigNat.tla)."),
+    "C08": ("DESIGN.md#c08--total-decoders",
+            "Same total-decoder spec; structured extremes + seeded random mutations run on the real decoders under catch_unwind / counting allocator / clock, and "
+            "trace-validated by TLC against Codec!Dec (verdict, canonicity, allocation envelope)",
+            "Each of >4k structured strings and >4k (quick) / >40k (thorough) random mutations is decoded by the real code with panics, arithmetic overflow "
+            "(dev profile), allocation volume and time observed, and judged by TLC.",
+            "Totality is observed on the explored inputs; the allocation envelope constant (64x + 16 KiB) is part of the spec."),
 }
 
 NOT_YET = {}
